@@ -325,6 +325,26 @@ class Model:
     def file_of(self, node):
         return getattr(node, '_file', None)
 
+    def resigned_kept(self):
+        """Non-public functions of the pinned tree that are still there under
+        their name but take another number of positional parameters (and
+        were not put back by the normaliser): qual -> (now, pinned)."""
+        if getattr(self, '_resigned_kept', None) is None:
+            from . import normalise
+            out = {}
+            pinned = normalise.load_pinned()['functions']
+            for q, fi in self.funcs.items():
+                pk = pinned.get(q)
+                nm = q.split('.')[-1]
+                if pk is None or pk.get('nargs') is None or \
+                        not nm.startswith('_') or nm.startswith('__') or \
+                        fi.vararg or fi.kwarg:
+                    continue
+                if len(fi.params) != pk['nargs']:
+                    out[q] = (len(fi.params), pk['nargs'])
+            self._resigned_kept = out
+        return self._resigned_kept
+
     def func(self, qual, required=True):
         """Look a function up by qualified name; fall back to a unique
         simple name (so moving a function between modules is tolerated)."""
